@@ -16,7 +16,7 @@ static void emit_stats(const evstats_t *st)
     jo_int("prune_swaps", st->prune_swaps); jo_int("xchg", st->xchg); jo_int("thr_panels", st->threads_with_panels);
     jo_int("ns_mismatch", st->nsuper_order_mismatch); jo_int("sub_reads", st->sub_reads);
     jo_int("ovl_pp", st->prune_overlap_prune); jo_int("ovl_ps", st->prune_overlap_subread);
-    jo_int("max_tail", st->max_tail); jo_int("sched_none", st->sched_none); jo_int("dynsetmaps", st->dynsetmaps);
+    jo_int("max_tail", st->max_tail); jo_int("sched_none", mon_sched_none()); jo_int("dynsetmaps", st->dynsetmaps);
 }
 
 static int_t *final_first(const SuperMatrix *L, int_t n)
